@@ -1,0 +1,20 @@
+//go:build verif
+
+// Contracts for the retention enforcement service (checked by /verif/bin/govc; comment-only file).
+package retention
+
+// ---- C17: retention deletes a local shard only if its group is deleted or expired ----
+// One pass collects the ids of the shards of every group that is already marked deleted and of every group it
+// just marked deleted because it expired (soundness of DeletedShardGroups / ExpiredShardGroups is proved in
+// services/meta). A local shard is handed to DeleteShard only if its id was collected in THIS pass, and an
+// expired group's shards are collected only if marking the group deleted succeeded.
+//@ func (*Service).run
+//@   props C17
+//@   nosafety
+//@   dynamic_calls_modify_nothing
+//@   ghost marked_deleted bool = false
+//@   at after DeleteShardGroup#1: ghost marked_deleted = callresult0 == nil
+//@   call mapupdate#1 requires only_deleted_groups_are_collected: !g.DeletedAt.IsZero()
+//@   call mapupdate#2 requires only_groups_marked_deleted_are_collected: marked_deleted
+//@   call DeleteShard#1 requires only_collected_shards_are_deleted: has(deletedShardIDs, id)
+//@   call RetentionPolicyInfo.ExpiredShardGroups#1 assume_callee_requires
